@@ -19,8 +19,9 @@ from fractions import Fraction
 
 import numpy as np
 
-from ..coqgen import B, C, L, N, Q
-from ..fin import fm, T, err_class, magnitude
+from ..coqgen import B, C, L, N, NONE, P, Q, Some
+from ..coqgen import Z as ZZ
+from ..fin import fm, T, err_class, magnitude, us_of
 
 ID = "C11"
 TITLE = "Time interpolation adapters equal their mathematical definition"
@@ -431,9 +432,11 @@ def _run_link(case, ghost):
                 out.push_data(data, T(op[1]))     # a push-driven consumer pulls inside this call
             else:
                 pull_once(T(op[1]))
+        # the publication times the adapter still buffers after the script (TimeCachingAdapter.data, oldest first)
+        buf = [us_of(t) for t, _d in getattr(ada, "data", [])]
     finally:
         end_of_link(ada)
-    return {"n": n, "pulls": pulls}
+    return {"n": n, "pulls": pulls, "buffer": buf}
 
 
 _FROZEN = []
@@ -509,7 +512,8 @@ def coq_obs(case, obs):
             res.append("VErrNoData")
         else:
             res.append("VOther")
-    return L(res)
+    buf = obs.get("buffer")
+    return P(L(res), NONE if buf is None else Some(L(ZZ(t) for t in buf)))
 
 
 # ----------------------------------------------------------------------------
